@@ -8,6 +8,7 @@ mod c02;
 mod c03;
 mod syncworld;
 mod c07;
+mod c08;
 mod c10;
 mod c12;
 
@@ -18,6 +19,7 @@ fn main() {
         "C01" => c01::run(&args),
         "C10" => c10::run(&args),
         "C07" => c07::run(&args),
+        "C08" => c08::run(&args),
         "C12" => c12::run(&args),
         "C02" => c02::run(&args),
         "C03" => c03::run(&args, "C03"),
